@@ -96,6 +96,16 @@ def check_design(ctx, d, steps, regmap, memmap, label):
                     ctx.violation('map-keys:' + nm, '%s of the synthesized block is not keyed by the original '
                                   'design\'s objects (%d of %d keys are originals)' % (nm, len(have & want), len(want)), replay)
                     ok = False
+            # reset values: bit k of a register's reset value, None staying None (it means "the simulator's default_value")
+            for r in sorted(orig_regs & set(bs.reg_map.keys()), key=lambda w: w.name):
+                bits = list(bs.reg_map[r])
+                want_bits = [None if r.reset_value is None else (r.reset_value >> k) & 1 for k in range(len(bits))]
+                got_bits = [getattr(b_, 'reset_value', 'not-a-register') for b_ in bits]
+                if got_bits != want_bits:
+                    ctx.violation('reset-value', 'register %s (reset_value %r) is synthesized into 1-bit registers with reset values %r, '
+                                  'expected %r' % (r.name, r.reset_value, got_bits, want_bits), replay)
+                    ok = False
+                    break
             # translate stimulus / initial state
             if merge:
                 steps2 = steps
@@ -115,6 +125,13 @@ def check_design(ctx, d, steps, regmap, memmap, label):
             try:
                 mm2 = {bs.mem_map[m]: mmv for m, mmv in memmap.items()}
             except KeyError:
+                mm2 = None
+            bs_names = {w.name for w in bs.wirevector_subset(pyrtl.Input)}
+            dropped = sorted(n for n in (steps2[0] if steps2 else {}) if n not in bs_names)
+            if merge and dropped:
+                ctx.violation('input-dropped', 'Input %s of the original design is not an Input of the synthesized block: a testbench '
+                              'driving it by name no longer runs' % dropped[0], replay)
+                ok = False
                 mm2 = None
             if mm2 is not None:
                 tr, resp, ser1 = spec_run(ctx, bs, steps2, regmap2, mm2, 0)
